@@ -27,6 +27,34 @@ def run(ck: Check):
             v = "Y" + "".join(rr.choice("YN") for _ in range(60))
             ex.one(strategy, {"limit": limit}, tcl, content(tcl), v, clock=clock, stream="limit-status",
                    model=strategy != "minimize-collapse-brace")
+    # file names at the limits of the file system: an extension so long that 'original<ext>' / '<n>-boring<ext>' in the
+    # temp dir has NAME_MAX-1, NAME_MAX, NAME_MAX+1 bytes (and ordinary lengths).  Whatever happens to the copies - they
+    # fit, or the run stops with the OS error - a rejected original is never written to, and a run that works reports
+    # its status as always
+    from explore import replay_doc
+    from runner import impl_run
+    name_max = 255
+    for elen in [1, 4, 16, 64, 128, 200] + list(range(name_max - 14, name_max - 5)):
+        ext = "." + "e" * (elen - 1)
+        for strategy in ("minimize", "minimize-around", "check-only"):
+            for v in ("N", "YNNNNNNNNN", "YYNYNYNY"):
+                data = b"a\nb\nc\n"
+                try:
+                    run_ = impl_run(strategy, {}, None, data, v, load=True, ext=ext)
+                except OSError:
+                    continue        # the scratch testcase itself cannot be created with that name
+                ck.count("name-length")
+                ck.nontrivial(("name-length", elen, strategy, v))
+                ctx = {"strategy": strategy, "cfg": {}, "tc": run_.loaded, "file0": data, "verdicts": v, "clock": [], "atom": "line",
+                       "exc_class": "TestRaised", "load": True, "extension_length": elen}
+                too_long = max(len("original" + ext), len("1-interesting" + ext)) > name_max
+                if run_.exc == "OSError" and too_long:
+                    # the copies do not fit: the run stops; the user's file is as it was if test 1 did not accept it
+                    if (v[0] == "N" or not run_.seen) and (run_.writes or run_.final != data):
+                        ck.violation(f"{strategy} with a {elen}-byte extension: the run stopped with OSError and the testcase file was "
+                                     f"written {run_.writes} time(s) although no test accepted anything", replay_doc(ctx, run_))
+                    continue
+                oracle_c11(ck, ctx, run_)
     ex.diff()
     return ck.finish(level="proof", rule=RULE + EXTRA_RULE, assumptions=ASSUME)
 
